@@ -1362,6 +1362,7 @@ def _multi_db(tree: ast.Module) -> dict:
     dv = loop.target.id  # type: ignore[attr-defined]
     lb = loop.body
     ok = False
+    ed_deep = True
     if lb and isinstance(lb[0], ast.Try) and not lb[0].finalbody and len(lb[0].handlers) == 1:
         tr = lb[0]
         h = tr.handlers[0]
@@ -1378,7 +1379,9 @@ def _multi_db(tree: ast.Module) -> dict:
         if (h.type is not None and _is(h.type, 'KeyError') and quiet and len(rets) == 1 and not others and rets[0].value is not None):
             val = _deref(rets[0].value, env2)
             inner = _is_deepcopy(val)
-            if inner is not None and _is(inner, f'{dv}.get_ent({cn})'):
+            if inner is None:                   # the cached definition itself is handed out: a shape with a meaning (CShare), not an error
+                inner, ed_deep = val, False
+            if _is(inner, f'{dv}.get_ent({cn})'):
                 ok = True
     if not ok and len(lb) == 1 and isinstance(lb[0], ast.If) and not lb[0].orelse:
         # the membership test instead of the exception: `if classname.casefold() in dbase.get_classnames(): return deepcopy(dbase.get_ent(classname))`
@@ -1389,8 +1392,11 @@ def _multi_db(tree: ast.Module) -> dict:
                                              and x.targets[0].id in env2)]
         if (m and m[0] == 'in' and _is(m[1], f'{cn}.casefold()') and (_is(m[2], f'{dv}.get_classnames()') or _is(m[2], f'{dv}.ent_map'))
                 and len(sts) == 1 and isinstance(sts[0], ast.Return) and sts[0].value is not None):
-            inner = _is_deepcopy(_deref(sts[0].value, env2))
-            ok = inner is not None and _is(inner, f'{dv}.get_ent({cn})')
+            val = _deref(sts[0].value, env2)
+            inner = _is_deepcopy(val)
+            if inner is None:
+                inner, ed_deep = val, False
+            ok = _is(inner, f'{dv}.get_ent({cn})')
     if not ok:
         raise TranslateError('EntityDef.engine_def: loop body is not `try: return deepcopy(dbase.get_ent(classname)) except KeyError: pass`: '
                              + ast.unparse(loop)[:200])
@@ -1405,14 +1411,18 @@ def _multi_db(tree: ast.Module) -> dict:
         return isinstance(st, ast.AnnAssign) and isinstance(st.target, ast.Name) and st.target.id in env
     body = [st for st in _body(eb) if not is_local_def(st)]
     shortcut = False
+    short_deep = True
     if body and isinstance(body[0], ast.If):
         t = _deref(body[0].test, env)
         sc = body[0]
         if not ((_is(t, 'len(_load_engine_db()) == 1') or _is(t, '1 == len(_load_engine_db())')) and not sc.orelse and len(sc.body) == 1
                 and isinstance(sc.body[0], ast.Return) and sc.body[0].value is not None):
             raise TranslateError('FGD.engine_dbase: the leading `if` is not the single-database shortcut: ' + ast.unparse(sc)[:160])
-        inner = _is_deepcopy(_deref(sc.body[0].value, env))
-        if inner is None or not (_is(inner, '_load_engine_db()[0].get_fgd()') or _is(inner, '_load_engine_db()[-1].get_fgd()')):
+        val = _deref(sc.body[0].value, env)
+        inner = _is_deepcopy(val)
+        if inner is None:
+            inner, short_deep = val, False
+        if not (_is(inner, '_load_engine_db()[0].get_fgd()') or _is(inner, '_load_engine_db()[-1].get_fgd()')):
             raise TranslateError('FGD.engine_dbase: the single-database shortcut does not return deepcopy(databases[0].get_fgd())')
         shortcut = True
         body = body[1:]
@@ -1502,6 +1512,7 @@ def _multi_db(tree: ast.Module) -> dict:
             where = 'back'
     return dict(first_hit=fwd, merge=mode, merge_loop_forward=fwd_all, effective_first=effective_first, single_shortcut=shortcut,
                 applies_bases=applies_bases, added_database_goes=where,
+                answers_deep=[('engine_def', ed_deep)] + ([('engine_dbase_single', short_deep)] if shortcut else []) + [('engine_dbase_merged', rv is not None)],
                 digests={'engine_def': ast_digest(ed_raw), 'engine_dbase': ast_digest(eb_raw), 'add_engine_database': ast_digest(ad)})
 
 
@@ -2653,6 +2664,8 @@ def translate() -> tuple[str, dict]:
         f'Definition gen_args_cfg : args_cfg := mk_args_cfg {ord(ha["sep"])}%N {_b(ha["strip"])} {ha["filter"]} {_b(ha["clear_sole"])}.',
         'Definition helper_arg_joiners : list (list N) := [' + '; '.join(_cstr(j) for j in ha['joiners']) + '].',
         '(* EntityDef.__deepcopy__: per attribute its shape (annotation) and how the copy is produced (SM/FgdCopyShare.v) *)',
+        '(* what EntityDef.engine_def / FGD.engine_dbase return: deepcopy(<cached object>) = CDeep, the cached object itself = CShare *)',
+        'Definition answer_copies : list (string * cexpr) := [' + '; '.join(f'("{n}", {"CDeep" if d else "CShare"})' for n, d in md['answers_deep']) + '].',
         'Definition entity_copy_plan : list (string * (ftype * cexpr)) := [' + '; '.join(f'("{n}", ({t}, {e}))' for n, t, e in cpl['rows']) + '].',
         '(* _engine_db.build_blocks: size tests by role, and where blocks without entities leave the list (SM/FgdBlocks.v); serialise *)',
         'Definition gen_bcfg : bcfg := {| merge_fits := %s; add_fits := %s; ovf_full := %s; drop_empty_before_leftovers := %s; '
